@@ -24,7 +24,15 @@ func allU16(f func(v uint16)) {
 	}
 }
 
-func fill(n int, c byte) []byte { return bytes.Repeat([]byte{c}, n) }
+// fill: n octets; from two octets on the value starts with a two-octet UTF-8 character ("é"), so that every name,
+// id and payload of the domain is non-ASCII and octet counts differ from character counts
+func fill(n int, c byte) []byte {
+	b := bytes.Repeat([]byte{c}, n)
+	if n >= 2 {
+		b[0], b[1] = 0xC3, 0xA9
+	}
+	return b
+}
 
 // variable part lengths across every boundary (the header form switches at
 // total size 255/256; MaxPayloadLength = 7168)
